@@ -251,7 +251,7 @@ def kind_of_var(case, upto, x):
     return kinds.get(x, '?')
 
 
-def tag_of(case, k, got):
+def tag_of(case, k, got, exp=''):
     """[kind op flavour -> effect]: one tag per defect so that vf groups reports by defect"""
     if k >= len(case):
         op, kind, flav = 'end', '', ''
@@ -273,7 +273,21 @@ def tag_of(case, k, got):
     else:
         eff = got.split(' | ')[0]
         if eff in ('ok', 'skip', 'end'):
-            eff = 'contents'
+            g = got.split(' | ')[1] if ' | ' in got else ''
+            e = exp.split(' | ')[1] if ' | ' in exp else ''
+            cnt = lambda s, f: (re.findall(f + r'=(\d+)', s) or [''])[0]
+            if eff != exp.split(' | ')[0]:
+                eff = 'performed-or-not'
+            elif g.split(' ; live=')[0] != e.split(' ; live=')[0] and ' ; live=' in g:
+                eff = 'contents'
+            elif cnt(g, 'bad') != cnt(e, 'bad'):
+                eff = 'registry-anomaly'
+            elif cnt(g, 'live') != cnt(e, 'live'):
+                eff = 'live-instances'
+            elif cnt(g, 'nb') != cnt(e, 'nb'):
+                eff = 'live-allocations'
+            else:
+                eff = 'contents'
     return '[%s %s%s -> %s]' % (kind, op, flav, eff)
 
 
@@ -335,7 +349,7 @@ class C04(Check):
             if k is not None:
                 exp = s[k] if k < len(s) else '<nothing>'
                 got = o[k] if k < len(o) else '<nothing>'
-                tag = tag_of(cases[i], k, got)
+                tag = tag_of(cases[i], k, got, exp)
                 fails.append((i, k, '%-40s op#%d `%s`: spec expects `%s`, implementation gives `%s`' % (
                     tag, k, cases[i][k] if k < len(cases[i]) else 'end', exp, got)))
         return fails
